@@ -203,22 +203,27 @@ func (ex *Exec) collectSyms(t *Term) {
 func (ex *Exec) satWithModel(goal *Term) (string, map[string]uint64) {
 	ex.prepHard(goal)
 	ex.collectSyms(goal)
-	s := ex.active
-	s.push()
-	s.assert(goal)
-	r := s.check()
 	var m map[string]uint64
-	if r == "sat" && len(ex.symbols) > 0 {
-		if vals, ok := s.getValues(ex.symbols); ok {
-			m = make(map[string]uint64, len(vals))
-			for i, sy := range ex.symbols {
-				m[sy.op] = vals[i]
+	r := ex.onActive(func(s *Solver) string {
+		s.push()
+		s.assert(goal)
+		r := s.check()
+		if r == "sat" && len(ex.symbols) > 0 {
+			if vals, ok := s.getValues(ex.symbols); ok {
+				m = make(map[string]uint64, len(vals))
+				for i, sy := range ex.symbols {
+					m[sy.op] = vals[i]
+				}
 			}
+		} else if r == "sat" {
+			m = map[string]uint64{}
 		}
-	} else if r == "sat" {
-		m = map[string]uint64{}
+		s.pop()
+		return r
+	})
+	if r == "unknown" {
+		m = nil
 	}
-	s.pop()
 	if r == "unknown" {
 		r2, vals := ex.fallbackQuery(goal, ex.symbols)
 		r = r2
